@@ -4,6 +4,12 @@ use crate::engine::{Ctx, Run};
 use serde_json::Value;
 
 pub mod c01;
+pub mod c03;
+pub mod c04;
+pub mod c05;
+pub mod c06;
+pub mod c16;
+pub mod c18;
 pub mod common;
 pub mod selfcheck;
 
@@ -11,17 +17,31 @@ pub struct Prop {
     pub id: &'static str,
     pub run: fn(&mut Run),
     pub replay: fn(&Value, &mut Ctx),
+    pub leg: Option<fn(&mut Run)>,
 }
 
 pub const PROPS: &[Prop] = &[
-    Prop { id: "C01", run: c01::run, replay: c01::replay },
+    Prop { id: "C01", run: c01::run, replay: c01::replay, leg: None },
+    Prop { id: "C03", run: c03::run, replay: c03::replay, leg: Some(c03::leg) },
+    Prop { id: "C04", run: c04::run, replay: c04::replay, leg: None },
+    Prop { id: "C05", run: c05::run, replay: c05::replay, leg: None },
+    Prop { id: "C06", run: c06::run, replay: c06::replay, leg: None },
+    Prop { id: "C16", run: c16::run, replay: c16::replay, leg: None },
+    Prop { id: "C18", run: c18::run, replay: c18::replay, leg: None },
 ];
 
 pub fn find(id: &str) -> Option<&'static Prop> {
     PROPS.iter().find(|p| p.id == id)
 }
 
-/// auxiliary legs run in another build configuration (see C03 / C19)
-pub fn run_leg(_id: &str, _leg: &str, _args: &[String]) -> u8 {
-    2
+/// auxiliary legs run in another build configuration (see C03 / C19): `owlmc leg <ID> <tier>`
+pub fn run_leg(id: &str, tier: &str, _args: &[String]) -> u8 {
+    let Some(prop) = find(id) else { return 2 };
+    let Some(leg) = prop.leg else { return 2 };
+    crate::engine::install_panic_hook();
+    let tier = if tier == "thorough" { crate::engine::Tier::Thorough } else { crate::engine::Tier::Quick };
+    let mut run = Run::new(prop.id, tier);
+    leg(&mut run);
+    crate::engine::print_leg_result(&run);
+    0
 }
